@@ -218,13 +218,13 @@ func (cr *checkRunner) runAndMergeResults(states []module.CheckState, runner fun
 				data.headerLock.Unlock()
 			}
 
-			if subCheckRes.Quarantine {
-				data.setQuarantineErr.Do(func() {
-					data.quarantineErr = subCheckRes.Reason
-				})
-			} else if subCheckRes.Reject {
+			if subCheckRes.Reject {
 				data.setRejectErr.Do(func() {
 					data.rejectErr = subCheckRes.Reason
+				})
+			} else if subCheckRes.Quarantine {
+				data.setQuarantineErr.Do(func() {
+					data.quarantineErr = subCheckRes.Reason
 				})
 			} else if subCheckRes.Reason != nil {
 				// 'action ignore' case. There is Reason, but action.Apply set
